@@ -17,7 +17,7 @@ RULE = ('every translated public function (114; plotting / file readers without 
         '(float64 array, int64 array, list of floats, list of ints; signal objects built from them), lengths 8..64 (quick) / ..128 (thorough; histories ..64), '
         'integer, dyadic, gaussian, sine and shipped-motion records; per call: bit-exact words of every argument before/after, serialised result of call 1 vs call 2 (results longer than 48 words through their SHA-256), '
         'np.shares_memory(result, argument) contained in the IR\'s ret_roots; object histories (Signal, AccSignal, Cluster): construct or reset_values from a caller array, '
-        'random sequences of every mutator / property, after each step: caller arrays bit-exact, values buffer not shared with any caller array, values is a numeric ndarray, '
+        'Cluster also from lists of arrays of different lengths followed by an in-place mutator on a member signal; random sequences of every mutator / property, after each step: caller arrays bit-exact, values buffer not shared with any caller array, values is a numeric ndarray, '
         'len(values) = npts, time = dt*[0..npts-1] (one rounding), buffer kept only where the IR allows it; then the caller array is overwritten and the object compared; '
         'a call that raises is counted (not a violation of this property) but its arguments are still compared; non-trivial = record not constant')
 TRUSTED = [
@@ -472,18 +472,32 @@ def object_history(rep, g, cls, cases, stats):
                       'object_changed': ob != oa}, 'single.%s[caller-write]' % cls, nontrivial=True, klass='vice[%s,%s]' % (cls, g.flavour)))
 
 
-def cluster_history(rep, g, cases, stats):
+def cluster_history(rep, g, cases, stats, unequal=False):
+    """unequal: the Cluster is built from a list of records of different lengths (no 2-d array can be formed from them); the
+    history then starts with an in-place mutator applied to a member signal"""
     import eqsig
     rng = g.rng
     n = g.n = min(g.n, 64)
-    rows = [g.rec(n), g.rec(n)] + ([g.rec(n)] if rng.random() < 0.4 else [])
-    shape = rng.choice(['list', '2d']) if g.flavour in ('farr', 'iarr') else 'list'
+    if unequal:
+        n = g.n = max(n, 16)
+        lens = [n, n - 2 * rng.randint(1, 3)] + ([n - 2 * rng.randint(0, 3)] if rng.random() < 0.4 else [])
+        rng.shuffle(lens)
+        rows = [g.rec(m) for m in lens]
+        shape = 'list'
+    else:
+        rows = [g.rec(n), g.rec(n)] + ([g.rec(n)] if rng.random() < 0.4 else [])
+        shape = rng.choice(['list', '2d']) if g.flavour in ('farr', 'iarr') else 'list'
     callers = np.array(rows) if shape == '2d' else rows
     held = [('values', callers)]
+    stypes = rng.choice(['custom', 'acc'])
+    if unequal and g.flavour == 'farr' and rng.random() < 0.7:
+        stypes = 'acc'
     with warnings.catch_warnings():
         warnings.simplefilter('ignore')
-        c = eqsig.Cluster(callers, g.dt, stypes=rng.choice(['custom', 'acc']), master_index=rng.randrange(len(rows)))
+        c = eqsig.Cluster(callers, g.dt, stypes=stypes, master_index=rng.randrange(len(rows)))
     hist = ['__init__']
+    tag = '[unequal lengths]' if unequal else ''
+    mcls = 'AccSignal' if stypes == 'acc' else 'Signal'
 
     def emit(meth, before, pres, err):
         after = [words(a) for _, a in held]
@@ -494,13 +508,48 @@ def cluster_history(rep, g, cases, stats):
             shares_caller = any(isinstance(v, np.ndarray) and np.shares_memory(v, a) for a in allarr)
             qual = 'multiple.Cluster.%s' % meth
             coq, isnd, shares_old = meth_case('Cluster', qual, s, (before, after), None, shares_caller)
-            replay = {'function': qual, 'history': list(hist), 'signal': i, 'flavour': g.flavour, 'args': {'values': core.jsonable(callers), 'dt': g.dt},
+            replay = {'function': qual, 'history': list(hist), 'signal': i, 'flavour': g.flavour, 'args': {'values': core.jsonable(callers), 'dt': g.dt, 'stypes': stypes},
                       'changed_caller_arrays': before != after, 'values_shares_memory_with_caller_array': shares_caller, 'values_is_numeric_ndarray': isnd,
                       'values_type': type(v).__name__, 'raised': err}
-            cases.append(Case(coq, replay, qual, nontrivial=True, klass='history[Cluster,%s]' % g.flavour))
+            cases.append(Case(coq, replay, qual + tag, nontrivial=True, klass='history[Cluster%s,%s]' % (tag, g.flavour)))
+
+    def member_step(i, name, thunk):
+        """a mutator applied to member signal i: caller arrays bit-exact before/after, the member's buffer not shared with them
+        (checked with the member class's IR entry, as in object_history)"""
+        s = c.signal_by_index(i)
+        before = [words(a) for _, a in held]
+        pre = s.values
+        err = None
+        with warnings.catch_warnings():
+            warnings.simplefilter('ignore')
+            with np.errstate(all='ignore'):
+                try:
+                    thunk(s)
+                except Exception as e:  # noqa
+                    err = '%s: %s' % (type(e).__name__, e)
+                    stats['raised'][name] = stats['raised'].get(name, 0) + 1
+        hist.append('signal_by_index(%d).%s' % (i, name))
+        after = [words(a) for _, a in held]
+        v = s.values
+        shares_caller = any(isinstance(v, np.ndarray) and np.shares_memory(v, a) for a in arrays_in(callers))
+        qual = 'single.%s.%s' % (mcls, name)
+        coq, isnd, shares_old = meth_case(mcls, qual, s, (before, after), None if err else pre, shares_caller)
+        replay = {'function': 'Cluster member: ' + qual, 'history': list(hist), 'signal': i, 'flavour': g.flavour,
+                  'args': {'values': core.jsonable(callers), 'dt': g.dt, 'stypes': stypes}, 'changed_caller_arrays': before != after,
+                  'values_shares_memory_with_caller_array': shares_caller, 'values_is_numeric_ndarray': isnd, 'values_buffer_kept': shares_old, 'raised': err}
+        cases.append(Case(coq, replay, 'multiple.Cluster[member %s]%s' % (name, tag), nontrivial=True, klass='history[Cluster member%s,%s]' % (tag, g.flavour)))
 
     emit('__init__', [words(a) for _, a in held], None, None)
     fs = 1.0 / g.dt
+    if unequal:
+        i = rng.randrange(c.n_signals)
+        if mcls == 'AccSignal':
+            name, thunk = rng.choice([('rebase_displacement', lambda s: s.rebase_displacement()),
+                                      ('rebase_displacement', lambda s: s.rebase_displacement()),
+                                      ('set_zero_residual_velocity', lambda s: s.set_zero_residual_velocity((2 * s.dt, 6 * s.dt)))])
+        else:
+            name, thunk = rng.choice([('add_constant', lambda s: s.add_constant(0.5)), ('remove_average', lambda s: s.remove_average())])
+        member_step(i, name, thunk)
     for _ in range(rng.randint(1, 3)):
         name, thunk = rng.choice([('same_start', lambda: c.same_start(start=0, end=4 * g.dt)), ('time_match', lambda: c.time_match(steps=rng.choice([3, 5]))),
                                   ('combine_motions', lambda: c.combine_motions(0.1 * fs)), ('values_by_index', lambda: c.values_by_index(0))])
@@ -517,6 +566,7 @@ def cluster_history(rep, g, cases, stats):
         hist.append(name)
         emit(name, before, None, err)
     ob = sum([obj_snapshot(c.signal_by_index(i)) for i in range(c.n_signals)], [])
+    snap = core.jsonable(callers) if unequal else None
     for a in arrays_in(callers):
         a += 1 if a.dtype.kind in 'iu' else 1.5
     if isinstance(callers, list):
@@ -524,8 +574,8 @@ def cluster_history(rep, g, cases, stats):
             if isinstance(r, list):
                 r[0] = r[0] + 1
     oa = sum([obj_snapshot(c.signal_by_index(i)) for i in range(c.n_signals)], [])
-    cases.append(Case('CVice %s %s' % (zlist(ob), zlist(oa)), {'function': 'caller write after Cluster ' + '/'.join(hist), 'args': {'flavour': g.flavour, 'history': hist}, 'object_changed': ob != oa},
-                      'multiple.Cluster[caller-write]', nontrivial=True, klass='vice[Cluster,%s]' % g.flavour))
+    cases.append(Case('CVice %s %s' % (zlist(ob), zlist(oa)), {'function': 'caller write after Cluster ' + '/'.join(hist), 'args': {'flavour': g.flavour, 'history': hist, 'caller_values_before_the_write': snap, 'dt': g.dt, 'stypes': stypes}, 'object_changed': ob != oa},
+                      'multiple.Cluster[caller-write]' + tag, nontrivial=True, klass='vice[Cluster%s,%s]' % (tag, g.flavour)))
 
 
 # ----------------------------------------------------------------------------- run
@@ -571,6 +621,9 @@ def run(rep, rng, tier):
     for k in range(nh // 4):
         g = G(rng, tier, FLAVOURS[k % 4])
         cluster_history(rep, g, cases, stats)
+    for k in range(nh // 10):      # clusters built from a list of float64 arrays of different lengths
+        g = G(rng, tier, 'farr')
+        cluster_history(rep, g, cases, stats, unequal=True)
     rep.extra['functions_exercised'] = len(exercised)
     rep.extra['functions_without_generator'] = sorted(stats['no_generator'])
     rep.extra['calls_that_raised'] = stats['raised']
